@@ -99,7 +99,18 @@ structure Test where
   deps : List DepArg
   params : Params
   args : List String := []
+  sub : Nat := 0                   -- position among the variants of one parametrized declaration (0: not a variant)
   deriving DecidableEq, Repr
+
+/-- **The rank the loader gives a test** (since fix N5): `md.rank` for a plain test, `md.rank + idx / (idx + 1)` for the
+    variant of index `idx` of a parametrized one — pairwise distinct, increasing with the parameter set, all in
+    `[md.rank, md.rank + 1)`.  Only the ORDER of ranks is ever used (stable sorts of the loader and of the report), so the
+    model keeps the pair (`rank` = the integer part = the declaration's rank, `sub` = a strictly increasing index) and
+    compares lexicographically. -/
+def Test.key (t : Test) : Nat × Nat := (t.rank, t.sub)
+
+/-- `a.rank < b.rank` on the loaded ranks -/
+def keyLt (a b : Test) : Bool := decide (a.rank < b.rank) || (a.rank == b.rank && decide (a.sub < b.sub))
 
 /-- `Test.get_fixtures()`: the arguments of the callback that are not parameters of this test -/
 def Test.fixtures (t : Test) : List String := t.args.filter (fun a => !(t.params.any (fun kv => kv.1 == a)))
@@ -157,7 +168,7 @@ def namingD (n : Naming) (name desc : String) (ps : Params) (nb : Nat) : String 
 def expandSets (b : Test) (n : Naming) : Nat → List Params → List Test
   | _, [] => []
   | nb, ps :: rest =>
-    { b with name := (namingD n b.name b.desc ps nb).1, desc := (namingD n b.name b.desc ps nb).2, params := ps }
+    { b with name := (namingD n b.name b.desc ps nb).1, desc := (namingD n b.name b.desc ps nb).2, params := ps, sub := nb }
       :: expandSets b n (nb + 1) rest
 
 /-- **The tests one declaration stands for.** -/
@@ -228,7 +239,7 @@ def loadSets (b : Test) (visible : Bool) (n : Naming) : Nat → List Params → 
     match applyNaming n b.name b.desc ps nb with
     | .error e => .error e :: loadSets b visible n (nb + 1) rest
     | .ok (nm, ds) =>
-      if visible then .ok { b with name := nm, desc := ds, params := ps } :: loadSets b visible n (nb + 1) rest
+      if visible then .ok { b with name := nm, desc := ds, params := ps, sub := nb } :: loadSets b visible n (nb + 1) rest
       else loadSets b visible n (nb + 1) rest
 
 /-- what `_load_tests` yields for one symbol -/
@@ -341,7 +352,12 @@ end
 
 /-! ## Bridge to the run-level project syntax (`Model/Run.lean`) -/
 
-/-- dependencies are the PATH arguments here; callables are replaced by the paths they select beforehand (`resolvePreds`) -/
+/-- a natural-number rank with the same ORDER among the tests `ts` of one suite as the loaded ranks: how many siblings
+    rank strictly below (the run-level project, the events and the report carry natural numbers) -/
+def denseRank (ts : List Test) (t : Test) : Nat := ts.countP (fun u => keyLt u t)
+
+/-- dependencies are the PATH arguments here; callables are replaced by the paths they select beforehand (`resolvePreds`);
+    `rank` is the integer part of the loaded rank — `toSpecTests` puts the order-isomorphic `denseRank` in its place -/
 def toSpecTest (t : Test) : Run.TestSpec :=
   { name := t.name, rank := t.rank, disabled := t.disabled.isDisabled
     disabledReason := (match t.disabled with | .reason _ => true | _ => false)
@@ -349,13 +365,16 @@ def toSpecTest (t : Test) : Run.TestSpec :=
     fixtures := t.fixtures   -- the arguments that are not parameters of the test (`Test.get_fixtures`)
     script := [] }
 
+/-- the tests of one suite for the runner: each with a rank that orders it among its siblings as the loader's rank does -/
+def toSpecTests (ts : List Test) : List Run.TestSpec := ts.map (fun t => { toSpecTest t with rank := denseRank ts t })
+
 def hookScript (b : Bool) : Option Run.Script := if b then some [] else none
 
 mutual
 def toSpec : Suite → Run.SuiteSpec
   | .mk h ts subs =>
     .mk h.name h.rank h.disabled.isDisabled (h.setupSuite.map (fun ps => (ps, []))) (hookScript h.teardownSuite)
-      (hookScript h.setupTest) (hookScript h.teardownTest) (h.injected.map (·.1)) (ts.map toSpecTest) (toSpecs subs)
+      (hookScript h.setupTest) (hookScript h.teardownTest) (h.injected.map (·.1)) (toSpecTests ts) (toSpecs subs)
 def toSpecs : List Suite → List Run.SuiteSpec
   | [] => []
   | s :: rest => toSpec s :: toSpecs rest
